@@ -18,7 +18,7 @@ register('C02', level='other', sidecars=BASE + ['components', 'periodic', 'trans
 register('C03', level='other', sidecars=['net_bounded', 'net_ops_bounded', 'statespace', 'seq_network'], trusted=NET,
          explanation='bounded: renamed / permuted / terminal-reversed / re-referenced copies of topology T1 give the same physical results for all element values; '
                      'change of reference shifts all potentials by one constant')
-register('C04', level='other', sidecars=BASE + ['net_bounded', 'net_ops_bounded'], trusted=NET,
+register('C04', level='other', sidecars=BASE + ['net_bounded', 'net_ops_bounded', 'seq_network'], trusted=NET,
          explanation='bounded: superposition, scaling and zero-in/zero-out on topologies T1 and T3 through the library source-zeroing operations, all values symbolic')
 register('C05', level='other', sidecars=BASE + ['solution', 'net_bounded', 'multifreq', 'statespace'], trusted=NET,
          explanation='contracts on get_power of the network, DC and complex solutions plus the loop-free sign lemmas for R, L, C element laws; Tellegen on the bounded topologies')
